@@ -38,6 +38,13 @@ var fuzzConfigs = []Case{
 		Tok: TokSpec{Alg: "RS256", Key: "rsa1", KID: "k1", HasKID: true, Relation: "trusted"}},
 	{Kind: kProvAcc, Algs: []string{"RS256"}, Keys: []KeyEntry{{Key: "rsa1", KID: "k1", Use: "sig"}}, Prov: &ProvOpts{HasHintKS: true, HintKS: []KeyEntry{{Key: "rsa2", KID: "k1", Use: "sig"}}, HintAlgs: []string{"RS256", "RS384"}},
 		Tok: TokSpec{Alg: "RS384", Key: "rsa1", KID: "k1", HasKID: true, Relation: "alg-of-other-list:trusted"}},
+	// expired id_token_hints (handed back with IDTokenHintExpiredError if genuine): signed by a trusted and by an untrusted key
+	{Kind: kOPHint, Keys: []KeyEntry{{Key: "rsa1", KID: "k1", Use: "sig"}}, Tok: TokSpec{Alg: "RS256", Key: "rsa1", KID: "k1", HasKID: true, Relation: "trusted", Time: "expired"}},
+	{Kind: kOPHint, Keys: []KeyEntry{{Key: "rsa1", KID: "k1", Use: "sig"}}, Tok: TokSpec{Alg: "RS256", Key: "rsa2", KID: "k1", HasKID: true, Relation: "other-key-same-kid", Time: "expired"}},
+	{Kind: kHintEnd, Router: "provider", Algs: []string{"RS256"}, Keys: []KeyEntry{{Key: "rsa1", KID: "k1", Use: "sig"}}, Tok: TokSpec{Alg: "RS256", Key: "rsa2", KID: "k1", HasKID: true, Relation: "other-key-same-kid", Time: "expired"}},
+	// request object without client_id whose iss names the other client, signed with that client's key, in c1's authorization request
+	{Kind: kReqObj, Keys: []KeyEntry{{Key: "p256a", KID: "k1", Use: "sig"}}, Keys2: []KeyEntry{{Key: "rsa2", KID: "k2", Use: "sig"}},
+		Tok: TokSpec{Alg: "RS256", Key: "rsa2", KID: "k2", HasKID: true, Iss: "c2", Outer: "c1", CID: "absent", Relation: "trusted"}},
 }
 
 var fuzzTemplates = []string{
